@@ -208,6 +208,10 @@ func c13(c *Ctx) {
 	c13ListsFromWire(c)
 	c13HTTPS(c)
 	c13HelloCallbackAlwaysRuns(c)
+	// a parsed hello is a fresh object: a recycled message keeps the lists (curves, point formats, extensions) of an earlier
+	// connection wherever this hello does not carry the extension that would overwrite them
+	pooledObjectsReset(c, "hello-message-fresh", "services/ja3/crypto/tls")
+	c13HelloFresh(c)
 	for _, svc := range Services(c) {
 		if svc.Type.Obj().Name() == "httpsService" || os.Getenv("HT_SWEEP") != "" {
 			channelWired(c, "https-events-delivered", svc)
